@@ -67,6 +67,15 @@ ENSURES(G_c_calls == OLD(G_c_calls) + 1 && G_seq == OLD(G_seq) + 1 && G_c_seq ==
 ENSURES(G_c_ctr == OLD(ctr[verif_gk < 16 ? verif_gk : 0]) && G_c_ctr_w3 == OLDBE32_12(ctr) && G_c_in == (size_t)in && G_c_inlen == inlen && G_c_out == (size_t)out && G_c_key == (size_t)key)
 ;
 
+/* inc32 of SP 800-38D 6.2: the last four bytes as a big-endian integer + 1 modulo 2^32, the first twelve untouched */
+static void ctr32_incr(uint8_t a[16])
+REQUIRES(RW_OK(a, 16))
+ASSIGNS(OBJ_UPTO(a, 16))
+ENSURES(BE32P(a + 12) == (uint32_t)(OLDBE32_12(a) + 1u))
+ENSURES(a[0] == OLD(a[0]) && a[1] == OLD(a[1]) && a[2] == OLD(a[2]) && a[3] == OLD(a[3]) && a[4] == OLD(a[4]) && a[5] == OLD(a[5])
+	&& a[6] == OLD(a[6]) && a[7] == OLD(a[7]) && a[8] == OLD(a[8]) && a[9] == OLD(a[9]) && a[10] == OLD(a[10]) && a[11] == OLD(a[11]))
+;
+
 /* ---- the specification (SP 800-38D 7.1 / 7.2) over the record ---- */
 #ifdef VERIF_CBMC
 /* index of the data GHASH call: 0 when the IV is 96 bits (no IV hash), else 1 */
